@@ -22,6 +22,7 @@ package entrypoint
 
 import (
 	"errors"
+	"fmt"
 
 	errorsmod "cosmossdk.io/errors"
 	sdk "github.com/cosmos/cosmos-sdk/types"
@@ -82,7 +83,7 @@ func (i IBCMiddleware) OnRecvPacket(
 	// source chain on Noble.
 	ccID, err := core.NewCrossChainID(core.PROTOCOL_IBC, packet.DestinationChannel)
 	if err != nil {
-		return newErrorAcknowledgement(err)
+		return newErrorAcknowledgement(ctx, err)
 	}
 
 	ccPacket, err := adaptertypes.NewIBCCrossChainPacket(
@@ -91,13 +92,13 @@ func (i IBCMiddleware) OnRecvPacket(
 		packet.GetData(),
 	)
 	if err != nil {
-		return newErrorAcknowledgement(err)
+		return newErrorAcknowledgement(ctx, err)
 	}
 
 	orbiterPacket, err := i.payloadAdapter.AdaptPacket(ctx, ccID, ccPacket)
 	// If the error is the sentinel error, we call the next middleware/app in the ICS20 stack.
 	if err != nil && !errors.Is(err, core.ErrNoOrbiterPacket) {
-		return newErrorAcknowledgement(err)
+		return newErrorAcknowledgement(ctx, err)
 	}
 	if orbiterPacket == nil {
 		return i.IBCModule.OnRecvPacket(ctx, packet, relayer)
@@ -105,7 +106,7 @@ func (i IBCMiddleware) OnRecvPacket(
 
 	err = i.payloadAdapter.BeforeTransferHook(ctx, orbiterPacket)
 	if err != nil {
-		return newErrorAcknowledgement(err)
+		return newErrorAcknowledgement(ctx, err)
 	}
 
 	ack := i.IBCModule.OnRecvPacket(ctx, packet, relayer)
@@ -115,21 +116,36 @@ func (i IBCMiddleware) OnRecvPacket(
 
 	err = i.payloadAdapter.AfterTransferHook(ctx, orbiterPacket)
 	if err != nil {
-		return newErrorAcknowledgement(err)
+		return newErrorAcknowledgement(ctx, err)
 	}
 
 	err = i.payloadAdapter.ProcessPayload(ctx, orbiterPacket)
 	if err != nil {
-		return newErrorAcknowledgement(err)
+		return newErrorAcknowledgement(ctx, err)
 	}
 
 	return ack
 }
 
-func newErrorAcknowledgement(err error) channeltypes.Acknowledgement {
+// newErrorAcknowledgement returns an error acknowledgement for the given error.
+//
+// NOTE: acknowledgements are written into state, so their content must be the same on every
+// node. The text of the wrapped errors is not guaranteed to be deterministic (e.g. the JSON
+// codec reports an arbitrary one of several unknown fields), therefore, as ibc-go does, only
+// the ABCI codespace and code of the error are included in the acknowledgement, and the
+// full error is logged.
+func newErrorAcknowledgement(ctx sdk.Context, err error) channeltypes.Acknowledgement {
+	ctx.Logger().Error("orbiter-middleware error", "error", err.Error())
+
+	codespace, code, _ := errorsmod.ABCIInfo(err, false)
+
 	return channeltypes.Acknowledgement{
 		Response: &channeltypes.Acknowledgement_Error{
-			Error: errorsmod.Wrap(err, "orbiter-middleware error").Error(),
+			Error: fmt.Sprintf(
+				"orbiter-middleware error: ABCI error: %s/%d: error handling packet: see node logs for details",
+				codespace,
+				code,
+			),
 		},
 	}
 }
